@@ -331,12 +331,12 @@ Lemma at_NameIDMappingResponse : class_at live_table k_samlp_NameIDMappingRespon
 Proof. class_fact. Qed.
 
 (* it never sets the required Status member: whatever the identifiers and addresses, the unsigned result is invalid *)
-Lemma name_id_mapping_response_invalid entityid irt ob o :
+Lemma name_id_mapping_response_v0_invalid entityid irt ob o :
   ob_sig ob = None ->
-  name_id_mapping_response entityid None irt {| sg_arg := Some false; sg_should := false |} ob = Some o ->
+  name_id_mapping_response_v0 entityid None irt {| sg_arg := Some false; sg_should := false |} ob = Some o ->
   valid live_table (CK k_samlp_NameIDMappingResponse) (to_tree live_table o) = false.
 Proof.
-  intros Hs. unfold name_id_mapping_response, sig_member. cbn [signs sg_arg]. rewrite Hs.
+  intros Hs. unfold name_id_mapping_response_v0, sig_member. cbn [signs sg_arg]. rewrite Hs.
   intros E. inversion E; subst o. clear E.
   rewrite to_tree_unfold, at_NameIDMappingResponse, valid_unfold, at_NameIDMappingResponse.
   apply andb_false_iff. left. unfold node_ok. apply andb_false_iff. right.
@@ -344,11 +344,11 @@ Proof.
   reflexivity.
 Qed.
 
-Lemma owf_name_id_mapping_response_fixed entityid name_id irt status sg ob o :
+Lemma owf_name_id_mapping_response entityid name_id irt status sg ob o :
   obs_ok ob -> opt_lexb LNCName irt = true -> opt_valid k_saml_NameID name_id = true ->
-  name_id_mapping_response_fixed entityid name_id irt status sg ob = Some o -> owf live_table o = true.
+  name_id_mapping_response entityid name_id irt status sg ob = Some o -> owf live_table o = true.
 Proof.
-  intros Hob Hirt Hn E. unfold name_id_mapping_response_fixed in E.
+  intros Hob Hirt Hn E. unfold name_id_mapping_response in E.
   destruct (sig_member sg ob) as [s|] eqn:Es; [|discriminate]. inversion E; subst o. clear E.
   pose proof (sig_part _ _ _ Hob Es) as Hsg. pose proof (raw_opt _ _ Hn) as Hnid.
   destruct Hob as [Hid [Hin _]].
@@ -357,9 +357,9 @@ Proof.
   conj; leaf.
 Qed.
 
-Lemma name_id_mapping_response_refuted :
+Lemma name_id_mapping_response_v0_refuted :
   exists entityid name_id irt sg ob o,
-    obs_ok ob /\ name_id_mapping_response entityid name_id irt sg ob = Some o
+    obs_ok ob /\ name_id_mapping_response_v0 entityid name_id irt sg ob = Some o
     /\ valid live_table (CK k_samlp_NameIDMappingResponse) (to_tree live_table o) = false.
 Proof.
   exists "https://idp.example.org/idp.xml", None, (Some "id-1"), {| sg_arg := Some false; sg_should := false |},
@@ -830,14 +830,14 @@ Proof.
     [reflexivity|exact at_EntityDescriptor|elem_fact|apply owf_entity_descriptor; assumption].
 Qed.
 
-Lemma name_id_mapping_response_fixed_valid :
+Lemma name_id_mapping_response_valid :
   forall entityid name_id irt status sg ob o,
     obs_ok ob -> opt_lexb LNCName irt = true -> opt_valid k_saml_NameID name_id = true ->
-    name_id_mapping_response_fixed entityid name_id irt status sg ob = Some o ->
+    name_id_mapping_response entityid name_id irt status sg ob = Some o ->
     valid live_table (CK k_samlp_NameIDMappingResponse) (to_tree live_table o) = true.
 Proof.
   intros e n i st sg ob o H1 H2 H3 E.
-  pose proof (owf_name_id_mapping_response_fixed e n i st sg ob o H1 H2 H3 E) as Ho.
+  pose proof (owf_name_id_mapping_response e n i st sg ob o H1 H2 H3 E) as Ho.
   pose proof (owf_valid live_table table_ok o Ho) as Hv.
-  unfold name_id_mapping_response_fixed in E. destruct (sig_member sg ob); [|discriminate]. inversion E; subst o. exact Hv.
+  unfold name_id_mapping_response in E. destruct (sig_member sg ob); [|discriminate]. inversion E; subst o. exact Hv.
 Qed.
